@@ -12,6 +12,10 @@ impl HasKey<Public> for V3 {
     type Key = PublicKey;
 
     fn decode(bytes: &[u8]) -> Result<PublicKey, PasetoError> {
+        // k3.public is the 49-byte compressed SEC1 point: no uncompressed or hybrid forms, no point at infinity
+        if bytes.len() != 49 || !matches!(bytes[0], 0x02 | 0x03) {
+            return Err(PasetoError::InvalidKey);
+        }
         let pk = VerifyingKey::from_sec1_bytes(bytes)?;
         Ok(PublicKey(pk))
     }
